@@ -17,16 +17,44 @@ def env_parse_i32(ex, m, args, tys, st, fn, symargs):
     return [(st, Enum(0, {0: [n]}, "Result"))]
 
 
+def env_parse_relation(ex, m, args, tys, st, fn, symargs):
+    """Stub for `<(i32, Ordering, i32)>::parse(input)`: two arbitrary integers and an arbitrary relation
+    (texlang::parse::Ordering wraps std::cmp::Ordering: Less = -1, Equal = 0, Greater = 1)."""
+    from mir2smt.execmir import Agg
+    if "__consts__" in symargs:
+        c = symargs["__consts__"]
+        a, b, o = I(c.get("a", 0)), I(c.get("b", 0)), I(c.get("rel", 0))
+    else:
+        a, b, o = tm.V("a"), tm.V("b"), tm.V("rel")
+        st.assume(tm.and_(tm.in_range(a, 32, True), tm.in_range(b, 32, True), tm.le(I(-1), o), tm.le(o, I(1))))
+    symargs.update(a=a, b=b, rel=o)
+    return [(st, Enum(0, {0: [Agg([a, Agg([Enum(o, {}, "Ordering")]), b])]}, "Result"))]
+
+
+def post_ifnum(a, ret):
+    x, y, o = a["a"], a["b"], a["rel"]
+    want = tm.or_(tm.and_(tm.lt(x, y), tm.eq(o, I(-1))), tm.and_(tm.eq(x, y), tm.eq(o, I(0))), tm.and_(tm.gt(x, y), tm.eq(o, I(1))))
+    return result_is(ret, tm.TRUE, lambda p: tm.or_(tm.and_(p, want), tm.and_(tm.not_(p), tm.not_(want))))
+
+
 PROP = {
     "level_text": 'Only the \\ifodd condition is decided (every i32, scanner stubbed). Branch skipping, \\ifcase/\\or/\\else/\\fi, \\ifnum, nesting and \\expandafter/\\noexpand are VM-bound and NOT decided.',
     "title": "Conditionals deliver only the selected branch; \\expandafter acts on one token",
     "explanation": "Engine B decides the condition of \\ifodd for every 32-bit operand from the MIR of IfOdd::evaluate, with the integer scanner replaced by a stub that returns an arbitrary i32.",
     "outside": [
         "branch skipping (false_case, \\or, \\else, \\fi over token streams), \\ifcase, nesting, \\let-aliased conditionals, \\expandafter / \\noexpand: these run on the VM's token streams, whose construction (interner, command maps, tracer: std HashMap/BTreeMap) is beyond what CBMC finished in this sandbox - NOT decided here",
-        "\\ifnum: its relation is parsed into a tuple by a generic Parsable impl that the MIR translator does not support",
+        "\\ifnum: scanning of the two numbers and of the relation character (<, =, >) is stubbed; only the comparison is decided",
     ],
     "assumptions": ["i32::parse(input) is stubbed: returns Ok(n) for an arbitrary i32 n (its own behaviour is the subject of C06)"],
     "obligations": [
+        dict(engine="B", name="c07_ifnum_condition", crates=["texlang-stdlib"], fn=("texlang-stdlib", "evaluate", "IfNum", "Condition"),
+             args=[("input", "opaque ExpansionInput")],
+             env_models=[(r"^<\(i32, (?:[a-z_]+::)*Ordering, i32\) as (?:[a-z_]+::)*Parsable>::parse::<.*>$", env_parse_relation)],
+             post=post_ifnum,
+             witnesses=[("a = b with '>'", lambda a: tm.and_(tm.eq(tm.V("a"), tm.V("b")), tm.eq(tm.V("rel"), I(1)))),
+                        ("extreme operands", lambda a: tm.and_(tm.eq(tm.V("a"), I(-(1 << 31))), tm.eq(tm.V("b"), I((1 << 31) - 1)), tm.eq(tm.V("rel"), I(-1))))],
+             funcs=["texlang_stdlib::conditional::<IfNum as Condition<S>>::evaluate (generic MIR; the (number, relation, number) scanner stubbed)"],
+             bound="every pair of i32 operands and each of the three relations: \\ifnum a<b, a=b, a>b is true exactly when the relation holds (TeX.2021.503)"),
         dict(engine="B", name="c07_ifodd_condition", crates=["texlang-stdlib"], fn=("texlang-stdlib", "evaluate", "IfOdd", "Condition"),
              args=[("input", "opaque ExpansionInput")],
              env_models=[(r"^<i32 as (?:[a-z_]+::)*Parsable>::parse::<.*>$", env_parse_i32)],
